@@ -71,55 +71,68 @@ const c13Group2 = "c13.example.org.eu"
 // Kinds are numbered g = 1000*variant + base. Every number is a different GVK, hence a different
 // watch, a different informer and a different thing for an XR to reference:
 //
-//	variant 0   c13.example.org/v1     K<base>
-//	variant 1   c13.example.org/v2     K<base>      another version of the same kind
-//	variant 2   c13.example.org.eu/v1  K<base>      the same Kind in another API group
-//	variant 3   c13.example.org/v1     K<base>x     a Kind the first one is a string prefix of
-//	variant 4   c13.example.org/v1     k<base>      the same Kind up to case
+//	variant 0   c13.example.org/v1       K<base>
+//	variant 1   c13.example.org/v2       K<base>           another version of the same kind
+//	variant 2   c13.example.org.eu/v1    K<base>           the same Kind in another API group
+//	variant 3   c13.example.org/v1       K<base>x          a Kind the first one is a string prefix of
+//	variant 4   c13.example.org/v1       k<base>           the same Kind up to case
+//	variant 5   c13.example.org/v1       K<base>List       a Kind whose NAME ends in "List" (ec2's ManagedPrefixList, AccessList, ...)
+//	variant 6   k<base>.c13.example.org/v1  List           a Kind that IS "List"
+//	variant 7   c13.example.org/v1       K<base>list       ... ends in "list", lower case
+//	variant 8   c13.example.org/v1       K<base>ListEntry  "List" in the middle
+//	variant 9   c13.example.org/v1       K<base>s          plural-looking names a string-level
+//	variant 10  c13.example.org/v1       K<base>Policies   helper (singularise, trim a suffix) could
+//	variant 11  c13.example.org/v1       K<base>Status     mangle
 //
-// (K1 is also a prefix of K100, K101, ..., the kinds of the XRs themselves.)
+// (K1 is also a prefix of K100, K101, ..., the kinds of the XRs themselves; variant 5 minus its
+// suffix IS variant 0.)
 func c13GVK(g int) schema.GroupVersionKind {
 	b := strconv.Itoa(g % 1000)
+	gvk := schema.GroupVersionKind{Group: c13Group, Version: "v1", Kind: "K" + b}
 	switch g / 1000 {
 	case 1:
-		return schema.GroupVersionKind{Group: c13Group, Version: "v2", Kind: "K" + b}
+		gvk.Version = "v2"
 	case 2:
-		return schema.GroupVersionKind{Group: c13Group2, Version: "v1", Kind: "K" + b}
+		gvk.Group = c13Group2
 	case 3:
-		return schema.GroupVersionKind{Group: c13Group, Version: "v1", Kind: "K" + b + "x"}
+		gvk.Kind += "x"
 	case 4:
-		return schema.GroupVersionKind{Group: c13Group, Version: "v1", Kind: "k" + b}
+		gvk.Kind = "k" + b
+	case 5:
+		gvk.Kind += "List"
+	case 6:
+		gvk.Group, gvk.Kind = "k"+b+"."+c13Group, "List"
+	case 7:
+		gvk.Kind += "list"
+	case 8:
+		gvk.Kind += "ListEntry"
+	case 9:
+		gvk.Kind += "s"
+	case 10:
+		gvk.Kind += "Policies"
+	case 11:
+		gvk.Kind += "Status"
 	}
-	return schema.GroupVersionKind{Group: c13Group, Version: "v1", Kind: "K" + b}
+	return gvk
 }
 
-const c13Variants = 5
+const c13Variants = 12
 
-func c13KindOf(gvk schema.GroupVersionKind) int {
+var c13KindIndex = func() map[schema.GroupVersionKind]int {
+	m := map[schema.GroupVersionKind]int{}
 	for v := 0; v < c13Variants; v++ {
-		k := gvk.Kind
-		switch v {
-		case 3:
-			if !strings.HasSuffix(k, "x") {
-				continue
-			}
-			k = "K" + strings.TrimSuffix(k[1:], "x")
-		case 4:
-			if !strings.HasPrefix(k, "k") {
-				continue
-			}
-			k = "K" + k[1:]
+		for b := 0; b < 200; b++ {
+			m[c13GVK(1000*v+b)] = 1000*v + b
 		}
-		if len(k) < 2 || k[0] != 'K' {
-			continue
-		}
-		n, err := strconv.Atoi(k[1:])
-		if err != nil || n < 0 || n >= 1000 {
-			continue
-		}
-		if c13GVK(1000*v+n) == gvk {
-			return 1000*v + n
-		}
+	}
+	return m
+}()
+
+// c13KindOf is the number of a GVK, -1 for a GVK that is none of the scenario's kinds (e.g. one
+// the code under test made up by cutting a name).
+func c13KindOf(gvk schema.GroupVersionKind) int {
+	if g, ok := c13KindIndex[gvk]; ok {
+		return g
 	}
 	return -1
 }
@@ -422,8 +435,10 @@ type c13Cache struct {
 	r *c13Run
 }
 
-func (c *c13Cache) GetInformer(_ context.Context, obj client.Object, _ ...cache.InformerGetOption) (cache.Informer, error) {
-	g := c13KindOf(obj.GetObjectKind().GroupVersionKind())
+// informer returns the informer of a GVK, creating it if there is none: what every read entry
+// point of a controller-runtime informer cache does (GetInformer, GetInformerForKind, Get, List).
+func (c *c13Cache) informer(gvk schema.GroupVersionKind) (*c13Informer, error) {
+	g := c13KindOf(gvk)
 	t := c.r.self()
 	c.r.mu.Lock()
 	defer c.r.mu.Unlock()
@@ -442,6 +457,40 @@ func (c *c13Cache) GetInformer(_ context.Context, obj client.Object, _ ...cache.
 	c.r.genN++
 	c.r.infs[g] = i
 	return i, nil
+}
+
+func (c *c13Cache) GetInformer(_ context.Context, obj client.Object, _ ...cache.InformerGetOption) (cache.Informer, error) {
+	i, err := c.informer(obj.GetObjectKind().GroupVersionKind())
+	if err != nil {
+		return nil, err
+	}
+	return i, nil
+}
+
+func (c *c13Cache) GetInformerForKind(_ context.Context, gvk schema.GroupVersionKind, _ ...cache.InformerGetOption) (cache.Informer, error) {
+	i, err := c.informer(gvk)
+	if err != nil {
+		return nil, err
+	}
+	return i, nil
+}
+
+// Get starts the informer of the object's kind and finds nothing (the scenario's kinds have no objects).
+func (c *c13Cache) Get(_ context.Context, key client.ObjectKey, obj client.Object, _ ...client.GetOption) error {
+	if _, err := c.informer(obj.GetObjectKind().GroupVersionKind()); err != nil {
+		return err
+	}
+	return nil
+}
+
+// List starts the informer of the ITEMS' kind: the list's kind minus one "List" suffix.
+func (c *c13Cache) List(_ context.Context, l client.ObjectList, _ ...client.ListOption) error {
+	gvk := l.GetObjectKind().GroupVersionKind()
+	gvk.Kind = strings.TrimSuffix(gvk.Kind, "List")
+	if _, err := c.informer(gvk); err != nil {
+		return err
+	}
+	return nil
 }
 
 func (c *c13Cache) RemoveInformer(_ context.Context, obj client.Object) error {
@@ -492,6 +541,35 @@ func (i *c13Infs) GetInformer(ctx context.Context, obj client.Object, opts ...ca
 func (i *c13Infs) RemoveInformer(ctx context.Context, obj client.Object) error {
 	i.r.park("RI", c13KindOf(obj.GetObjectKind().GroupVersionKind()))
 	return i.InformerTrackingCache.RemoveInformer(ctx, obj)
+}
+
+// The three other entry points of the tracking cache that mark an informer active (op cacheRead).
+func (i *c13Infs) parkRead(gvk schema.GroupVersionKind) {
+	if err := i.r.park("CR", c13KindOf(gvk)); err != nil {
+		// the real tracking cache runs (and marks the kind active); the cache below it fails
+		if t := i.r.self(); t != nil {
+			i.r.mu.Lock()
+			t.fault = err
+			i.r.mu.Unlock()
+		}
+	}
+}
+
+func (i *c13Infs) Get(ctx context.Context, key client.ObjectKey, obj client.Object, opts ...client.GetOption) error {
+	i.parkRead(obj.GetObjectKind().GroupVersionKind())
+	return i.InformerTrackingCache.Get(ctx, key, obj, opts...)
+}
+
+func (i *c13Infs) List(ctx context.Context, l client.ObjectList, opts ...client.ListOption) error {
+	gvk := l.GetObjectKind().GroupVersionKind()
+	gvk.Kind = strings.TrimSuffix(gvk.Kind, "List")
+	i.parkRead(gvk)
+	return i.InformerTrackingCache.List(ctx, l, opts...)
+}
+
+func (i *c13Infs) GetInformerForKind(ctx context.Context, gvk schema.GroupVersionKind, opts ...cache.InformerGetOption) (cache.Informer, error) {
+	i.parkRead(gvk)
+	return i.InformerTrackingCache.GetInformerForKind(ctx, gvk, opts...)
 }
 
 func (i *c13Informer) AddEventHandler(h toolscache.ResourceEventHandler) (toolscache.ResourceEventHandlerRegistration, error) {
@@ -778,6 +856,26 @@ func (r *c13Run) exec(t *c13Thread) string {
 			return "err"
 		}
 		return "ok"
+	case "cacheRead":
+		// some reader goes through the tracking cache: Get of an object, List (under the kind of the
+		// LIST type, "<Kind>List"), or GetInformerForKind; each marks the informer of the kind active
+		var err error
+		switch op.Via {
+		case "list":
+			ul := &unstructured.UnstructuredList{}
+			gvk := c13GVK(op.G)
+			gvk.Kind += "List"
+			ul.SetGroupVersionKind(gvk)
+			err = r.tinfs.List(ctx, ul)
+		case "forkind":
+			_, err = r.tinfs.GetInformerForKind(ctx, c13GVK(op.G))
+		default:
+			err = r.tinfs.Get(ctx, client.ObjectKey{Name: "x"}, c13Obj(op.G))
+		}
+		if err != nil {
+			return "err"
+		}
+		return "ok"
 	}
 	return "badop"
 }
@@ -1046,7 +1144,7 @@ func (c *c13Ctl) isCancelled() bool {
 func (r *c13Run) checkAtRest(when string) {
 	names := map[int]bool{}
 	for _, t := range r.th {
-		if t.op.Op != "removeInformer" {
+		if t.op.Op != "removeInformer" && t.op.Op != "cacheRead" {
 			names[t.op.N] = true
 		}
 	}
